@@ -197,6 +197,19 @@ class FortranGen:
                 op = self.gen_op(k, D, depth)
                 if op is None:
                     continue
+                if k == 14 and not isinstance(op, list) and op[0] == "call":
+                    # read the first and last element of the built-in's result right away (bounds matter)
+                    tgt = op[1][0]
+                    n_res = self.types[tgt][1]
+                    cands = [x for x in SC_TEMPS if self.cls.get(x, "inexact") == "inexact"]
+                    rd = "<state>r" if ("<state>r" in self.types and t.chance(0.5, "rdpers")) else \
+                        self.new_name(cands, "real", D)
+                    if rd is not None:
+                        self.cls[rd] = "inexact"
+                        D.add(rd)
+                        op = [op, ("assign", rd, None,
+                                   Bin("+", Sub(tgt, Const(0)), Bin("*", Const(2.0), Sub(tgt, Const(n_res - 1)))),
+                                   [], self.mode())]
                 self.shape.append(k)
                 if isinstance(op, list):
                     ops.extend(op)
